@@ -12,6 +12,7 @@ fn main() {
     "c02gen" => vh::engines::c02::generate(),
     "c02report" => vh::engines::c02::report(),
     "c03" => vh::engines::c03::run(),
+    "c04" => vh::engines::c04::run(),
     "c05" => vh::engines::c05::run(),
     "c05worker" => vh::engines::c05::worker(&args[2..]),
     "c06" => vh::engines::c06::run(),
